@@ -1,6 +1,8 @@
 (* C18 driver: runs the extracted codec / HTTP / Adler-32 models on the case format of
    harness/C18_driver.cc and prints the same canonical line per op.
-     case <id> <kind> <tag-spec>        kind = raw | rpc | http | adler
+     case <id> <kind> <tag-spec>        kind = raw | pb | rpc | old | http | adler | conn | hsrv
+                                        (old = the OLD codec of examples/protobuf/codec/codec.cc: frames carry a type
+                                         name; the only type the harness links is muduo.net.RpcMessage)
      F <chunk-spec>                     deliver one chunk (append + decode loop)
      E <msg-spec>                       (raw) encode one message
      E <type> <id> <svc> <meth> <req> <resp> <err>   (rpc) encode; "~" = field absent
@@ -79,6 +81,12 @@ let () =
   let sconn = ref sconn0 in
   let dead = ref false in
   let parse (p: byte list) : byte list option = if !kind = "raw" || !kind = "conn" then raw_parse p else rpc_parse p in
+  (* the OLD codec: createMessage(typeName) finds exactly the message types linked into the harness *)
+  let old_name = "muduo.net.RpcMessage" in
+  let old_type = List.map (fun c -> byte_of_int (Char.code c)) (List.init (String.length old_name) (String.get old_name)) in
+  let old_create (tn: byte list) : bool = (tn = old_type) in
+  let old_parse (_: byte list) (d: byte list) : byte list option = rpc_parse d in
+  let ocst = ref ocodec_init in
   (try while true do
     let line = input_line stdin in
     (match split_ws line with
@@ -86,7 +94,7 @@ let () =
     | "case" :: id :: k :: rest ->
         kind := k;
         tag := (match rest with t :: _ -> spec2 t | [] -> []);
-        cst := codec_init; hst := http_init; conn := conn0 (nat_of_int 1024); sconn := sconn0; dead := false;
+        cst := codec_init; ocst := ocodec_init; hst := http_init; conn := conn0 (nat_of_int 1024); sconn := sconn0; dead := false;
         Printf.printf "case %s %s\n" id k
     | ["end"] -> print_string "end\n"
     | ["F"; d] when !kind = "http" ->
@@ -94,6 +102,11 @@ let () =
         hst := st';
         Printf.printf "F %s r=%d ab=%s st=%d%s\n" (join ";" show_hev evs) (List.length st'.d_buf)
           (b01 st'.d_abandoned) (state_num st'.d_st.h_state) (if st'.d_oof then " OOF" else "")
+    | ["F"; d] when !kind = "old" ->
+        let (evs, st') = ocodec_feed old_create old_parse !ocst (spec2 d) in
+        ocst := st';
+        Printf.printf "F %s r=%d ab=%s%s\n" (join ";" show_cev evs) (List.length st'.d_buf)
+          (b01 st'.d_abandoned) (if st'.d_oof then " OOF" else "")
     | ["F"; d] ->
         let (evs, st') = codec_feed parse !tag !cst (spec2 d) in
         cst := st';
@@ -122,6 +135,10 @@ let () =
           (hex_or_dash sent) (List.length c'.s_buf) (b01 c'.s_connected) (min 1 (int_of_nat c'.s_shutdowns))
           (state_num c'.s_ctx.h_state) (if oof then " OOF" else "")
     | ["E"; d] -> Printf.printf "E %s\n" (show_fill (fillEmptyBuffer raw_ser !tag (spec2 d) (new_buf (nat_of_int 1024))))
+    | ["E"; ty; id; svc; meth; req; resp; er] when !kind = "old" ->
+        (match rpc_of_fields ty id svc meth req resp er with
+         | Some m -> Printf.printf "E %s\n" (hex_of_bytes (oencode old_type (wire_ser m)))
+         | None -> print_string "E not-an-enumerator\n")
     | ["E"; ty; id; svc; meth; req; resp; er] ->
         (match rpc_of_fields ty id svc meth req resp er with
          | Some m -> Printf.printf "E %s\n" (show_fill (fillEmptyBuffer wire_ser !tag m (new_buf (nat_of_int 1024))))
